@@ -110,6 +110,32 @@ def check(ctx):
         if not ok:
             ctx.violation("R-C04.1", f"scope-grow:{mname}:{" ".join(S.unparse(n).split())[:50]}", f"{mname}: `{S.unparse(n)[:70]}` - the scope stack must grow only in _push_scope and only by a fresh empty dict: a table that is shared with another level "
                           "(or pre-filled) makes declarations of one block visible in, or survive into, another", file=px.rel, function=f"CParser.{mname}", line=n.lineno)
+    # the scope TABLES are written by the two registration helpers and by nothing else: an entry is never removed, replaced or copied elsewhere
+    # (removing "the loop variable" from the enclosing block's table after a for statement also removes an entry that block owned before the loop)
+    for mname, fn in px.methods("CParser").items():
+        al_ = S.path_aliases(fn)
+        for n in ast.walk(fn):
+            tbl = None
+            how = None
+            if isinstance(n, ast.Call) and isinstance(n.func, ast.Attribute) and n.func.attr in ("pop", "popitem", "clear", "update", "setdefault", "__setitem__", "__delitem__"):
+                recv = S.unparse_resolved(n.func.value, al_)
+                if recv.startswith("self._scope_stack["):
+                    tbl, how = recv, f".{n.func.attr}()"
+            elif isinstance(n, ast.Delete):
+                for t in n.targets:
+                    if isinstance(t, ast.Subscript) and S.unparse_resolved(t.value, al_).startswith("self._scope_stack["):
+                        tbl, how = S.unparse_resolved(t.value, al_), "del"
+            elif isinstance(n, (ast.Assign, ast.AugAssign)):
+                for t in (n.targets if isinstance(n, ast.Assign) else [n.target]):
+                    if isinstance(t, ast.Subscript) and S.unparse_resolved(t.value, al_).startswith("self._scope_stack["):
+                        tbl, how = S.unparse_resolved(t.value, al_), "store"
+            if tbl is None:
+                continue
+            ok = mname in ("_add_typedef_name", "_add_identifier") and how == "store"
+            ctx.oblige("R-C04.1", f"{mname}: {how} on a scope table", ok)
+            if not ok:
+                ctx.violation("R-C04.1", f"scope-table-write:{mname}:{how}", f"{mname} changes a scope table ({how} on `{tbl}`): entries are only ever ADDED, by _add_typedef_name / _add_identifier; removing or replacing an entry elsewhere "
+                              "makes a name that the enclosing block declared earlier visible again as the outer typedef (or hides one)", file=px.rel, function=f"CParser.{mname}", line=n.lineno)
     parse = px.method("CParser", "parse")
     fresh = [n for n in parse.body if isinstance(n, ast.Assign) and any(isinstance(t, ast.Attribute) and t.attr == "_scope_stack" for t in n.targets)]
     ok = bool(fresh) and isinstance(fresh[0].value, ast.List) and len(fresh[0].value.elts) == 1
